@@ -45,7 +45,7 @@ func refPairSetup(r *rand.Rand, post postFn, password string, id *refIdentity) *
 	if err != nil {
 		return fail("M1 transport: "+err.Error(), 0, nil)
 	}
-	items, ok := refTlvParse(body)
+	items, ok := refTlvParseStrict(body)
 	if st != 200 || !ok {
 		return fail(fmt.Sprintf("M2 http=%d parse=%v", st, ok), st, items)
 	}
@@ -66,7 +66,7 @@ func refPairSetup(r *rand.Rand, post postFn, password string, id *refIdentity) *
 	if err != nil {
 		return fail("M3 transport: "+err.Error(), 0, nil)
 	}
-	items, ok = refTlvParse(body)
+	items, ok = refTlvParseStrict(body)
 	if st != 200 || !ok {
 		return fail(fmt.Sprintf("M4 http=%d parse=%v", st, ok), st, items)
 	}
@@ -92,7 +92,7 @@ func refPairSetup(r *rand.Rand, post postFn, password string, id *refIdentity) *
 	if err != nil {
 		return fail("M5 transport: "+err.Error(), 0, nil)
 	}
-	items, ok = refTlvParse(body)
+	items, ok = refTlvParseStrict(body)
 	if st != 200 || !ok {
 		return fail(fmt.Sprintf("M6 http=%d parse=%v", st, ok), st, items)
 	}
@@ -106,7 +106,7 @@ func refPairSetup(r *rand.Rand, post postFn, password string, id *refIdentity) *
 	if !good {
 		return fail("M6 encrypted data does not open under PS-Msg06", st, items)
 	}
-	sitems, ok := refTlvParse(pt)
+	sitems, ok := refTlvParseStrict(pt)
 	if !ok {
 		return fail("M6 sub-TLV malformed", st, items)
 	}
@@ -147,7 +147,7 @@ func refPairVerify(r *rand.Rand, post postFn, id *refIdentity, accLTPK []byte) *
 	if err != nil {
 		return fail("M1 transport: "+err.Error(), 0, nil)
 	}
-	items, ok := refTlvParse(body)
+	items, ok := refTlvParseStrict(body)
 	if st != 200 || !ok {
 		return fail(fmt.Sprintf("M2 http=%d parse=%v", st, ok), st, items)
 	}
@@ -164,7 +164,7 @@ func refPairVerify(r *rand.Rand, post postFn, id *refIdentity, accLTPK []byte) *
 	if !good {
 		return fail("M2 encrypted data does not open under PV-Msg02", st, items)
 	}
-	sitems, ok := refTlvParse(pt)
+	sitems, ok := refTlvParseStrict(pt)
 	if !ok {
 		return fail("M2 sub-TLV malformed", st, items)
 	}
@@ -183,7 +183,7 @@ func refPairVerify(r *rand.Rand, post postFn, id *refIdentity, accLTPK []byte) *
 	if err != nil {
 		return fail("M3 transport: "+err.Error(), 0, nil)
 	}
-	items, ok = refTlvParse(body)
+	items, ok = refTlvParseStrict(body)
 	if st != 200 || !ok {
 		return fail(fmt.Sprintf("M4 http=%d parse=%v", st, ok), st, items)
 	}
@@ -198,3 +198,19 @@ func refPairVerify(r *rand.Rand, post postFn, id *refIdentity, accLTPK []byte) *
 }
 
 func eqBytes(a, b []byte) bool { return bytes.Equal(a, b) }
+
+// refTlvParseStrict parses a message of the accessory the way the specification defines TLV8: besides being complete,
+// two adjacent items may have the same type only if the first is a 255-byte fragment (items of one type that are not
+// fragments of one value have to be separated). ok=false otherwise.
+func refTlvParseStrict(b []byte) (items []tlvOp, ok bool) {
+	items, ok = refTlvParse(b)
+	if !ok {
+		return items, false
+	}
+	for i := 1; i < len(items); i++ {
+		if items[i].Tag == items[i-1].Tag && len(items[i-1].Val) != 255 {
+			return items, false
+		}
+	}
+	return items, true
+}
